@@ -41,7 +41,7 @@ TNew == /\ HasLine("new")
         /\ Consume
 
 TCall == /\ HasLine("call")
-         /\ CASE L.api \in {"send", "event", "events_item", "allowed_item", "bound", "mixin_bound"}
+         /\ CASE L.api \in {"send", "send_from", "event", "events_item", "allowed_item", "bound", "mixin_bound"}
                                         -> ExtCall(L.i, L.ev, L.gv)
               [] L.api = "activate"     -> Activate(L.i, L.gv)
               [] L.api = "write_setter" -> WriteSetter(L.i, L.v)
@@ -57,7 +57,7 @@ TBegin == /\ HasLine("B")
           /\ LET m == M(L.i)
                  f == Top(m)
              IN \* (a guard given as property / attribute gets no injected arguments: L.inj = FALSE)
-                /\ L.inj => /\ L.view = ProjView(m)
+                /\ L.inj => /\ L.view = ProjState(D(L.i), m)
                             /\ L.src = f.src /\ L.tgt = f.tgt /\ L.evn = f.ev
                             /\ L.st = (IF SeesSource(f.phase) THEN f.src ELSE f.tgt)
                 /\ D(L.i).cbs[L.c].evcb = ""
@@ -68,6 +68,10 @@ TBegin == /\ HasLine("B")
 TEnd == /\ HasLine("E")
         /\ EndCb(L.i, L.c, L.raised)
         /\ Consume
+
+TCbWrite == /\ HasLine("cbw")
+            /\ CbWrite(L.i, L.c, L.v)
+            /\ Consume
 
 TNCall == /\ HasLine("ncall")
           /\ NestedSend(L.i, L.c, L.ev)
@@ -152,7 +156,7 @@ TSilent == /\ sil < SilentBound
            /\ n' = n + 1
            /\ UNCHANGED <<tid, l>>
 
-TraceNext == TNew \/ TCall \/ TBegin \/ TEnd \/ TNCall \/ TNRet \/ TXCall \/ TXRet \/ TRet \/ TClass \/ TProbe \/ TSilent
+TraceNext == TNew \/ TCall \/ TBegin \/ TEnd \/ TCbWrite \/ TNCall \/ TNRet \/ TXCall \/ TXRet \/ TRet \/ TClass \/ TProbe \/ TSilent
 TraceSpec == TraceInit /\ [][TraceNext]_tvars
 
 (***************************************************************************)
